@@ -531,6 +531,64 @@ class World:
             return ("exact", F(m))
         return ("float", float(m))
 
+    def live(self, frames, forms, x, src, dst):
+        """One live stack: convert (x, src) -> dst before anything is enabled, after EACH further
+        activation, and again after each deactivation, never starting over.  Returns
+        [(number of frames active, phase, outcome)], phase in down / percall / up / activate."""
+        import pint
+        ureg, obs = self.ureg, []
+
+        def conv(extra=None):
+            try:
+                q = ureg.Quantity(x, ureg.UnitsContainer(src))
+                a, kw = extra if extra else ((), {})
+                m = q.to(ureg.Unit(ureg.UnitsContainer(dst)), *a, **kw).magnitude
+            except pint.DimensionalityError:
+                return ("dimerr",)
+            except ZeroDivisionError:
+                return ("zerodiv",)
+            except pint.UndefinedUnitError:
+                return ("undef",)
+            except KeyError:
+                return ("keyerr",)
+            except ValueError:
+                return ("valueerr",)
+            except Exception as e:
+                return ("other", type(e).__name__)
+            if isinstance(m, (int, F)) and not isinstance(m, bool):
+                return ("exact", F(m))
+            return ("float", float(m))
+
+        def go(i):
+            obs.append((i, "down", conv()))
+            if i == len(frames):
+                return
+            fr, form = frames[i], forms[i]
+            try:
+                args, kw = [self._arg(r) for r in fr["refs"]], self._kw(fr["kw"])
+                if form == "percall":
+                    obs.append((i + 1, "percall", conv((args, kw))))
+                elif form == "with":
+                    with ureg.context(*args, **kw):
+                        go(i + 1)
+                elif form == "deco":
+                    ureg.with_context(args[0], **kw)(lambda: go(i + 1))()
+                else:
+                    ureg.enable_contexts(*args, **kw)
+                    try:
+                        go(i + 1)
+                    finally:
+                        ureg.disable_contexts(len(args))
+            except KeyError:
+                obs.append((i + 1, "activate", ("keyerr",)))
+            obs.append((i, "up", conv()))
+        try:
+            go(0)
+        finally:
+            if ureg._active_ctx.contexts:
+                ureg.disable_contexts()
+        return obs
+
     def compatible(self, frames, forms, x, src, dst):
         """Quantity.is_compatible_with(target, *contexts, **kw) under the same activation"""
         ureg = self.ureg
@@ -814,14 +872,18 @@ def run(ck):
     w5.close()
 
     # ---------------------------------------------------------------- scenario runner
-    def scenario(w, cases, frames, forms, x, src, dst, tag, api="to", observe=False, compat=False):
-        """run one conversion on the implementation, decide the oracles, emit the Coq case"""
-        impl = w.convert(frames, forms, x, src, dst, api)
+    def scenario(w, cases, frames, forms, x, src, dst, tag, api="to", observe=False, compat=False, impl=None, live=None):
+        """run one conversion on the implementation (or take the one observed on a live stack),
+        decide the oracles, emit the Coq case"""
+        if impl is None:
+            impl = w.convert(frames, forms, x, src, dst, api)
         refs, npaths = w.reference(frames, x, src, dst, "innermost")
         rp = {"world": w.kind if w.text is None else w.text,
               "contexts": [{"registered": s["registered"], "from_file": s["to_base"], "lines": ctx_lines(s["raw"])} for s in w.specs],
               "frames": js(frames), "forms": forms, "api": api, "convert": [str(x), js(src), js(dst)],
               "expected_one_of": js(refs), "observed": js(impl)}
+        if live is not None:
+            rp["live"] = live
         ok = any(same_outcome(impl, r) for r in refs)
         if not ok:
             coded, _ = w.reference(frames, x, src, dst, "as-coded")
@@ -865,7 +927,8 @@ def run(ck):
                 stats["ref:" + r[0]] += 1
         term = f"KConv {coq_frames(frames)} {coq_q(x)} {coq_uc(src)} {coq_uc(dst)} {coq_outcome(impl)}"
         cases.append((term, rp))
-        ck.case(key=(w.wid, json.dumps(js(frames), sort_keys=True), tuple(forms), api, str(x), str(sorted(src.items())), str(sorted(dst.items()))),
+        ck.case(key=(w.wid, json.dumps(js(frames), sort_keys=True), tuple(forms), api, str(x), str(sorted(src.items())), str(sorted(dst.items())),
+                     None if live is None else live["step"]),
                 nontrivial=bool(frames), sample={"contexts": [[r[1] for r in fr["refs"]] for fr in frames], "forms": forms,
                                                  "convert": [str(x), js(src), js(dst)], "observed": js(impl)})
         if observe and "percall" not in forms:
@@ -895,6 +958,21 @@ def run(ck):
             else:
                 cases.append((f"KParams {coq_frames(frames)} None", dict(rp, observe="parameters", observed="KeyError")))
         return impl
+
+    def scenario_live(w, cases, frames, forms, x, src, dst, tag):
+        """the same pair converted on ONE live stack before and after every activation and every
+        deactivation; each answer is judged against the chain active at that moment"""
+        obs = w.live(frames, forms, x, src, dst)
+        hist = [[n, ph, js(o)] for n, ph, o in obs]
+        for k, (n, phase, out) in enumerate(obs):
+            if phase == "activate":
+                continue
+            fs = frames[:n]
+            fm = list(forms[:n])
+            scenario(w, cases, fs, fm, x, src, dst, tag + "-live", impl=out,
+                     live={"frames": js(frames), "forms": list(forms), "step": k, "phase": phase, "active_frames": n, "history": hist})
+            stats["live conversions"] += 1
+        stats["live stacks"] += 1
 
     def _pv(v):
         if hasattr(v, "magnitude"):
@@ -1009,6 +1087,16 @@ def run(ck):
             scenario(wd, cases_d, frames, pick_forms(rng, frames), rng.choice(xs), ua[0], ub[0], "bundled-stack",
                      observe=rng.random() < 0.3)
             stats["bundled stacks"] += 1
+            if rng.random() < 0.25:
+                scenario_live(wd, cases_d, frames, pick_forms(rng, frames), rng.choice(xs), ua[0], ub[0], "bundled-stack")
+    # live stacks where a later activation SHORTENS the chain: spectroscopy links [energy] -> [frequency] -> [length],
+    # the object context ovr adds a direct [energy] -> [length] rule with another coefficient (and vice versa)
+    for first, second in [("spectroscopy", "ovr"), ("ovr", "spectroscopy"), ("sp", "ov")]:
+        for s_u, d_u in [({"electron_volt": F(1)}, {"nanometer": F(1)}), ({"nanometer": F(1)}, {"joule": F(1)}),
+                         ({"micrometer": F(1)}, {"terahertz": F(1)})]:
+            fr2 = [{"refs": [("name", first)], "kw": {}}, {"refs": [("name", second)], "kw": {}}]
+            for forms in (["with", "with"], ["enable", "enable"], ["with", "percall"], ["enable", "deco"], ["deco", "with"]):
+                scenario_live(wd, cases_d, fr2, forms, F(3, 2), s_u, d_u, "bundled-shortcut")
     groups.append((wd, cases_d))
 
     # ---------------------------------------------------------------- (B) a directed world: collisions, precedence, redefinitions
@@ -1060,6 +1148,11 @@ def run(ck):
         for forms in ([["with"] * len(frames), ["enable"] * len(frames)] + ([pick_forms(rng, frames)] if frames else [])):
             scenario(wb, cases_b, frames, forms, F(3, 2), src, dst, "directed", observe=True, compat=True)
             stats["directed"] += 1
+        if len(frames) >= 2 and all(r[1] != "nope" for fr in frames for r in fr["refs"]):
+            n = len(frames)
+            for forms in (["with"] * n, ["enable"] * n, ["with"] * (n - 1) + ["percall"],
+                          ["enable"] * (n - 1) + (["deco"] if len(frames[-1]["refs"]) == 1 else ["with"]), pick_forms(rng, frames)):
+                scenario_live(wb, cases_b, frames, forms, F(3, 2), src, dst, "directed")
     # redefinitions are visible exactly while active: before / inside / after on the SAME registry
     before = wb.convert([], [], F(1), U(ua2=1), U(ua=1))
     inside = wb.convert([N("C")], ["with"], F(1), U(ua2=1), U(ua=1))
@@ -1114,6 +1207,8 @@ def run(ck):
             scenario(w, cases_w, frames, pick_forms(rng, frames), x, src, dst, "random",
                      api=rng.choice(["to", "to", "to", "ito", "m_as"]), observe=rng.random() < 0.25, compat=rng.random() < 0.2)
             stats["random scenarios"] += 1
+            if depth >= 2 and rng.random() < 0.35:
+                scenario_live(w, cases_w, frames, pick_forms(rng, frames), x, src, dst, "random")
         groups.append((w, cases_w))
     ck.count("worlds", len(groups))
 
@@ -1250,6 +1345,16 @@ def replay(ck, path):
         else:
             w.add_object_context(raw, c.get("registered", True) if isinstance(c, dict) else True)
     x, src, dst = rp["convert"]
+    if "live" in rp:
+        lv = rp["live"]
+        lframes = [{"refs": [tuple(r) for r in fr["refs"]], "kw": unjs_kw(fr["kw"])} for fr in lv["frames"]]
+        obs = w.live(lframes, lv["forms"], F(x), {k: F(v) for k, v in src.items()}, {k: F(v) for k, v in dst.items()})
+        print("live stack, recorded history:", lv["history"])
+        print("live stack, history now     :", [[n, ph, js(o)] for n, ph, o in obs])
+        print(f"step {lv['step']} ({lv['phase']}, {lv['active_frames']} frames active): observed now",
+              js(obs[lv["step"]][2]) if lv["step"] < len(obs) else None, "expected one of", rp.get("expected_one_of"))
+        w.close()
+        return 0
     got = w.convert(frames, rp.get("forms", ["with"] * len(frames)), F(x), {k: F(v) for k, v in src.items()},
                     {k: F(v) for k, v in dst.items()}, rp.get("api", "to"))
     print("observed now :", js(got))
